@@ -112,11 +112,8 @@ class ControlEndpointEnv:
         # whatever order it creates them); their registers / FSMs are addressed through the instance (instance_reg, ...)
         from luna.gateware.usb.usb2.request import USBSetupDecoder
         from luna.gateware.usb.usb2.packet import USBDataPacketDeserializer
-        sdi = self.setup_decoder = ts.instance(USBSetupDecoder)
-        dhi = [x for x in ts.instances(USBDataPacketDeserializer) if within(ts, x, sdi)]
-        if len(dhi) != 1:
-            from hwv.extract import BindingError
-            raise BindingError(f"expected one USBDataPacketDeserializer inside the setup decoder, found {len(dhi)}")
+        sdi = self.setup_decoder = inside(ts, USBSetupDecoder, ce)
+        dhi = inside(ts, USBDataPacketDeserializer, sdi)
 
         def sd(n):
             """a register of the setup decoder, by the decoder's own name for the flip-flop (signal paths are ambiguous: the
@@ -130,7 +127,7 @@ class ControlEndpointEnv:
         self.fields = [self.f_type, self.f_request, self.f_value, self.f_index, self.f_length, self.f_recipient,
                        sd("is_in_request")]
         self.setup_ack = ts.of(sdi.ack) == 1
-        self.new_packet = instance_reg(ts, dhi[0], "new_packet") == 1
+        self.new_packet = instance_reg(ts, dhi, "new_packet") == 1
         self.dec = instance_fsm(ts, sdi)
         self.ctl = instance_fsm(ts, ce)
 
@@ -218,7 +215,7 @@ class ControlEndpointEnv:
     def handler(self):
         """the real StandardRequestHandler instance of the endpoint (found by class)"""
         from luna.gateware.usb.request.standard import StandardRequestHandler
-        return self.ts.instance(StandardRequestHandler)
+        return inside(self.ts, StandardRequestHandler, self.ce)
 
     def handler_fsm(self):
         return instance_fsm(self.ts, self.handler())
@@ -605,6 +602,17 @@ def within(ts, obj, parent):
     return h[:len(p)] == p
 
 
+def inside(ts, cls, parent):
+    """the one instance of class `cls` built inside the real instance `parent` (directly or deeper) -- "the setup decoder OF
+    this control endpoint", "the FIFO OF that OUT endpoint": role, not name"""
+    from hwv.extract import BindingError
+    found = [x for x in ts.instances(cls) if x is not parent and within(ts, x, parent)]
+    if len(found) != 1:
+        raise BindingError(f"expected exactly one {cls.__name__} inside the {type(parent).__name__} instance at "
+                           f"{'.'.join(hier(ts, parent)) or 'top'}, found {len(found)}")
+    return found[0]
+
+
 def instance_regs(ts, obj, deep=False):
     """[(own signal name or None, z3 state variable)] of every flip-flop in the module of the real sub-Elaboratable `obj`
     (deep=True: and in the modules below it), in netlist (creation) order"""
@@ -658,10 +666,10 @@ def control_endpoint_obligations(c, ts, ce, ep, groups, handlers=()):
     from luna.gateware.usb.usb2.packet import USBDataPacketDeserializer
     of, same = wires(ts)
     i = ce.interface
-    sd = ts.instance(USBSetupDecoder)
-    mux = ts.instance(USBRequestHandlerMultiplexer)
+    sd = inside(ts, USBSetupDecoder, ce)              # the children OF THIS control endpoint, by class
+    mux = inside(ts, USBRequestHandlerMultiplexer, ce)
     rh = mux.shared                                   # the post-multiplexer RequestHandlerInterface ("request_handler")
-    ctl = ts.fsm(".".join(hier(ts, ce) + ("fsm_state",)))
+    ctl = instance_fsm(ts, ce)
     tok = i.tokenizer
     targeted = of(tok.endpoint) == ep
     eq_all = lambda sink, source: z3.And(*[same(sink[n], of(source[n])) for n in sink])
@@ -683,10 +691,10 @@ def control_endpoint_obligations(c, ts, ce, ep, groups, handlers=()):
                                                            same(i.data_crc.start, of(sd.data_crc.start))),
                 clause="the setup decoder checks against the interface's shared CRC16 unit and is the one to (re)start it "
                        "(require crc_unit_contract of C06)")
-        dh = ts.instance(USBDataPacketDeserializer)
+        dh = inside(ts, USBDataPacketDeserializer, sd)
         c.lemma("setup_decoder_watches_the_endpoints_utmi_bus", z3.BoolVal(sd.utmi is ce.utmi and dh.utmi is ce.utmi),
                 clause="(structural) the setup decoder and its deserializer are built on the control endpoint's own UTMI bus")
-        dec = ts.fsm(".".join(hier(ts, sd) + ("fsm_state",)))
+        dec = instance_fsm(ts, sd)
         c.ensure("setup_decoder_arms_only_on_setup_tokens_for_this_endpoint",
                  z3.Implies(dec.is_("IDLE"), c.nx(dec.is_("READ_DATA")) ==
                             z3.And(of(tok.new_token) == 1, of(tok.pid) == spec.PID_SETUP, targeted)),
